@@ -3,7 +3,7 @@
 # usage: tools/baseline.sh [repo_dir]
 REPO="${1:-/repo}"
 OUT=$(mktemp /tmp/baseline.XXXXXX.xml)
-cd "$REPO" && env -u FLEXSTACK_VERIF /venv/bin/python -m pytest -q -p no:cacheprovider --timeout=900 --continue-on-collection-errors --junitxml="$OUT" >/dev/null 2>&1
+cd "$REPO" && env -u FLEXSTACK_VERIF PYTHONPATH="$REPO/src" /venv/bin/python -m pytest -q -p no:cacheprovider --timeout=900 --continue-on-collection-errors --junitxml="$OUT" >/dev/null 2>&1
 /venv/bin/python - "$OUT" <<'PY'
 import json,sys,xml.etree.ElementTree as ET
 base=json.load(open('/root/.vp/BASELINE.json'))
